@@ -1,6 +1,7 @@
 package main
 
 import (
+	"flag"
 	"fmt"
 	"strings"
 )
@@ -71,7 +72,7 @@ func applyReject(t *Tape, tpl int, c *CmdDecl, toks []string, cause rejectCause)
 		out = append(out, "y"+fmt.Sprint(t.Draw(5)))
 		return out, true
 	case rcUndeclaredOption:
-		insert([]string{"-z", "--zzz", "-z=1", "--zzz=1", "-q"}[t.Draw(5)])
+		insert([]string{"-z", "--zzz", "-z=1", "--zzz=1", "-q", "-5", "-2.5", "-1e3", "-inf", "-0"}[t.Draw(10)])
 		return out, true
 	case rcBadInt:
 		if tpl != 3 {
@@ -198,7 +199,7 @@ func (c07Prop) Gen(t *Tape, ph *PhaseCfg) Case {
 }
 
 func (c07Prop) genOne(t *Tape, ph *PhaseCfg) *c07Case {
-	tc := genTree(t, TreeOpts{Depth: -1, MaxDepth: ph.P["maxdepth"], Policy: 0, CB: c07Callbacks})
+	tc := genTree(t, TreeOpts{Depth: -1, MaxDepth: ph.P["maxdepth"], Policy: 0, CB: c07Callbacks, Fancy: true})
 	return c07Invocation(t, tc, true)
 }
 
@@ -329,19 +330,24 @@ func c07Verdict(c *c07Case, runs [3]policyRun, st *Stats) *Violation {
 		if len(r.p.Observed()) != 0 {
 			return &Violation{Clause: "rejected-runs-nothing", Detail: pn + ": a rejected invocation ran a callback", Expected: "no callback event", Observed: obs}
 		}
-		switch i {
-		case 0:
+		eff := effectivePolicy(c.Tree, c.Level, policies[i])
+		if eff != policies[i] {
+			st.Count("reach.rejecting_command_has_its_own_policy")
+			pn += " application, " + policyName(eff) + " set by the rejecting command's own initializer chain"
+		}
+		switch eff {
+		case flag.ContinueOnError:
 			if r.p.End != EndReturned || r.p.Err == nil {
-				return &Violation{Clause: "policy-continue", Detail: "ContinueOnError: Run must return a non-nil error", Expected: "returned error", Observed: obs}
+				return &Violation{Clause: "policy-continue", Detail: pn + ": ContinueOnError: Run must return a non-nil error", Expected: "returned error", Observed: obs}
 			}
-		case 1:
+		case flag.ExitOnError:
 			if r.p.End != EndExited || r.p.ExitCode != 2 || r.p.ExitCalls != 1 {
-				return &Violation{Clause: "policy-exit", Detail: "ExitOnError: the process must exit once with status 2", Expected: "exited(2), once", Observed: obs}
+				return &Violation{Clause: "policy-exit", Detail: pn + ": ExitOnError: the process must exit once with status 2", Expected: "exited(2), once", Observed: obs}
 			}
-		case 2:
+		case flag.PanicOnError:
 			err, isErr := r.p.PanicVal.(error)
 			if r.p.End != EndPanicked || !isErr || err == nil {
-				return &Violation{Clause: "policy-panic", Detail: "PanicOnError: Run must panic with the (non-nil) error", Expected: "panicked(error)", Observed: obs}
+				return &Violation{Clause: "policy-panic", Detail: pn + ": PanicOnError: Run must panic with the (non-nil) error", Expected: "panicked(error)", Observed: obs}
 			}
 		}
 		if c.Stream.Kind == StreamHealthy {
@@ -406,7 +412,7 @@ func (c14Prop) Gen(t *Tape, ph *PhaseCfg) Case {
 
 func (c14Prop) genOne(t *Tape, ph *PhaseCfg) *c07Case {
 	kind := []string{"help", "help", "help", "help-as-data", "version", "valid"}[t.Draw(6)]
-	opts := TreeOpts{Depth: -1, MaxDepth: ph.P["maxdepth"], Policy: 0, CB: c07Callbacks}
+	opts := TreeOpts{Depth: -1, MaxDepth: ph.P["maxdepth"], Policy: 0, CB: c07Callbacks, Fancy: true}
 	tc := genTree(t, opts)
 	return c14Invocation(t, tc, kind)
 }
@@ -546,9 +552,17 @@ func c14Verdict(c *c07Case, runs [3]policyRun, st *Stats) *Violation {
 		if len(r.p.Observed()) != 0 {
 			return &Violation{Clause: "help-runs-nothing", Detail: pn + ": a " + c.Kind + " request ran a callback", Expected: "no callback event", Observed: obs}
 		}
-		if i == 1 {
+		eff := policies[i]
+		if c.Kind == "help" {
+			eff = effectivePolicy(c.Tree, c.Level, policies[i])
+			if eff != policies[i] {
+				st.Count("reach.addressed_command_has_its_own_policy")
+				pn += " application, " + policyName(eff) + " set by the addressed command's own initializer chain"
+			}
+		}
+		if eff == flag.ExitOnError {
 			if r.p.End != EndExited || r.p.ExitCode != 0 || r.p.ExitCalls != 1 {
-				return &Violation{Clause: "help-end", Detail: "ExitOnError: a " + c.Kind + " request must exit once with status 0", Expected: "exited(0)", Observed: obs}
+				return &Violation{Clause: "help-end", Detail: pn + ": ExitOnError: a " + c.Kind + " request must exit once with status 0", Expected: "exited(0)", Observed: obs}
 			}
 		} else if r.p.End != EndReturned || r.p.Err != nil {
 			return &Violation{Clause: "help-end", Detail: pn + ": a " + c.Kind + " request must return nil", Expected: "returned nil", Observed: obs}
@@ -659,7 +673,7 @@ func (sc *sessionCase) Describe() interface{} {
 }
 
 func genSession(t *Tape, maxDepth int, one func(t *Tape, tc *TreeCase) *c07Case) *sessionCase {
-	base := genTree(t, TreeOpts{Depth: -1, MaxDepth: maxDepth, Policy: 0, CB: c07Callbacks, SubBare: true})
+	base := genTree(t, TreeOpts{Depth: -1, MaxDepth: maxDepth, Policy: 0, CB: c07Callbacks, SubBare: true, Fancy: true})
 	sc := &sessionCase{}
 	n := 2 + t.Draw(2)
 	for i := 0; i < n; i++ {
